@@ -443,6 +443,8 @@ class C03(ClientProp):
                 {"module": "MC_ClientChunked", "cfg": "MC_ClientChunkedWhole.cfg", "workers": 2}] + MODEL_RUNS[:1] + ctx.pick([], [
                     # two operations per client: too large to exhaust (> 30 min on 16 cores), explored by random walks
                     {"module": "MC_Client", "cfg": "MC_ClientTwoOps.cfg", "simulate": "num=40000", "depth": 40, "timeout": 900, "workers": 8},
+                    # ... and exhausted over the smallest alphabet that still has every operation class (10.9 M distinct states)
+                    {"module": "MC_Client", "cfg": "MC_ClientTwoOpsTiny.cfg", "timeout": 3000, "coverage": False},
                     {"module": "MC_Client", "cfg": "MC_ClientLive.cfg", "timeout": 1200, "workers": 8}])
 
     def _any_op(self, rng, api, zone="UTC", now=1790553600):
